@@ -742,7 +742,7 @@ class ReactionSystem(object):
         return np.array(
             [
                 (
-                    np.abs(eq.precipitate_stoich(self.substances)[0])
+                    np.abs(np.sign(eq.precipitate_stoich(self.substances)[0]))
                     if idx in non_precip_rids
                     else eq.non_precipitate_stoich(self.substances)
                 )
